@@ -1,4 +1,5 @@
 import RdsProofs.Reach
+import RdsProofs.ExtraProofs
 import RdsProofs.CellsProofs
 /-!
 # Property C07 — progressive correction only ever improves a character cell
@@ -9,6 +10,9 @@ init/clear no cell level of that text increases, except in the RT buffer that an
 `C07_error_free_stable`: a cell at level 0 is only changed by an error-free reception.
 -/
 -- THEOREM: RDS.C07
+-- THEOREM: RDS.C07_history_ps
+-- THEOREM: RDS.C07_history_ptyn
+-- THEOREM: RDS.C07_level0_sticky_ps
 -- THEOREM: RDS.C07_cell
 -- THEOREM: RDS.C07_error_free_stable
 namespace RDS
